@@ -45,7 +45,9 @@ def units(ctx):
            for c in specs.delegate_contracts(ctx.tier)]
     us += [contract_unit(c, world_setup=specs.setup)
            for c in specs.clone_contracts()]
-    us += [contract_unit(c, world_setup=specs.setup_definition)
+    us += [contract_unit(c, world_setup=(
+        specs.setup_definition_named if c.short.endswith('name=payload')
+        else specs.setup_definition))
            for c in specs.definition_contracts()]
     us += [contract_unit(c, world_setup=specs.setup)
            for c in specs.strip_contracts()]
